@@ -225,6 +225,37 @@ func CaseSRH(hs *transport.VerifHsState, stat keys.Exchangable, pre cyclist.Cycl
 
 // ---------------------------------------------------------------- ClientAuth (server reads, stored state)
 
+// shadowCAuth: the schedule of a ClientAuth read (handshake_spec.md), on the stored state hs.
+func shadowCAuth(e *Env, sh *Shadow, hs *transport.VerifHsState, b []byte) {
+	if len(b) < 4 {
+		return
+	}
+	L := int(b[2])<<8 | int(b[3])
+	if len(b) < 8+L+32 {
+		return
+	}
+	sh.Absorb(b[:4])
+	sh.Absorb(b[4:8])
+	pt := sh.Decrypt(b[8 : 8+L])
+	sh.Squeeze(16)
+	leaf, inter, ok := splitVectors(pt)
+	if !ok {
+		return
+	}
+	pk, err := hs.VerifHsPolicy(leaf, inter)
+	e.Policy(IDPolSrv, leaf, inter, pk[:], err == nil)
+	if err != nil {
+		return
+	}
+	se, err := hs.VerifHsDHEphemeral().DH(pk[:])
+	e.DH(IDSrvEph, pk[:], se, err == nil)
+	if err != nil {
+		return
+	}
+	sh.Absorb(se)
+	sh.Squeeze(16)
+}
+
 // CaseCAuth runs readPQClientAuth on b for addr, whose stored handshake has duplex state pre.
 func CaseCAuth(srv *Srv, addr *net.UDPAddr, pre cyclist.Cyclist, b []byte, m Meta) bool {
 	hs := srv.S.VerifHsHandshakeFor(addr)
@@ -235,35 +266,7 @@ func CaseCAuth(srv *Srv, addr *net.UDPAddr, pre cyclist.Cyclist, b []byte, m Met
 	sid := hs.VerifHsSessionID()
 	sh := NewShadow(pre)
 	e := NewEnv(b, K0, sh)
-	func() {
-		if len(b) < 4 {
-			return
-		}
-		L := int(b[2])<<8 | int(b[3])
-		if len(b) < 8+L+32 {
-			return
-		}
-		sh.Absorb(b[:4])
-		sh.Absorb(b[4:8])
-		pt := sh.Decrypt(b[8 : 8+L])
-		sh.Squeeze(16)
-		leaf, inter, ok := splitVectors(pt)
-		if !ok {
-			return
-		}
-		pk, err := hs.VerifHsPolicy(leaf, inter)
-		e.Policy(IDPolSrv, leaf, inter, pk[:], err == nil)
-		if err != nil {
-			return
-		}
-		se, err := hs.VerifHsDHEphemeral().DH(pk[:])
-		e.DH(IDSrvEph, pk[:], se, err == nil)
-		if err != nil {
-			return
-		}
-		sh.Absorb(se)
-		sh.Squeeze(16)
-	}()
+	shadowCAuth(e, sh, hs, b)
 	n, err, pan := catch2(func() (int, error) { n, _, err := srv.S.VerifHsReadPQClientAuth(b, addr); return n, err })
 	prefix := sh.PrefixOf(hs.VerifHsFingerprint())
 	var vals [][]byte
@@ -312,7 +315,17 @@ func CaseCH(b []byte, m Meta) bool {
 
 // ---------------------------------------------------------------- ServerHello (client reads the whole buffer)
 
+// CaseSHBuf: as the client does it, the reader is handed the whole receive buffer; the model is
+// given its first n bytes (the reader looks at no more than the first 852).
+func CaseSHBuf(hs *transport.VerifHsState, pre cyclist.Cyclist, buf []byte, n int, m Meta) bool {
+	return caseSH(hs, pre, buf[:n], buf, m)
+}
+
 func CaseSH(hs *transport.VerifHsState, pre cyclist.Cyclist, b []byte, m Meta) bool {
+	return caseSH(hs, pre, b, b, m)
+}
+
+func caseSH(hs *transport.VerifHsState, pre cyclist.Cyclist, b, real []byte, m Meta) bool {
 	sh := NewShadow(pre)
 	e := NewEnv(b, K0, sh)
 	if len(b) >= 852 {
@@ -326,7 +339,7 @@ func CaseSH(hs *transport.VerifHsState, pre cyclist.Cyclist, b []byte, m Meta) b
 		}
 	}
 	hs.VerifHsSetDuplex(pre)
-	n, err, pan := catch2(func() (int, error) { return transport.VerifHsReadPQServerHello(hs, b) })
+	n, err, pan := catch2(func() (int, error) { return transport.VerifHsReadPQServerHello(hs, real) })
 	prefix := sh.PrefixOf(hs.VerifHsFingerprint())
 	var vals [][]byte
 	if err == nil && !pan {
@@ -356,46 +369,48 @@ func openCookieSpec(key [16]byte, ad, cookie []byte) ([]byte, bool) {
 	return out, err == nil
 }
 
+// shadowCAck: cookie replay and ClientAck read. Returns the decrypted SNI when the schedule ran.
+func shadowCAck(e *Env, sh *Shadow, ck [16]byte, addr *net.UDPAddr, b []byte) (sni []byte) {
+	if len(b) < 1172 {
+		return
+	}
+	kb := b[36:836]
+	kemParse(e, kb)
+	kc := e.kemCanon(kb)
+	if kc == nil {
+		return
+	}
+	cookie := b[836:900]
+	_, ad := CookieADSpec(kc, addr)
+	e.HashParts(ad, kc, addr.IP, []byte{byte(addr.Port >> 8), byte(addr.Port)})
+	k, ok := openCookieSpec(ck, ad, cookie)
+	e.Open(IDCookie, ad, cookie, k, ok)
+	if !ok {
+		return
+	}
+	sh.Reset()
+	sh.Absorb([]byte(PQName))
+	sh.Absorb([]byte{1, 1, 0, 0})
+	sh.Absorb(kc)
+	sh.Squeeze(16)
+	sh.Absorb([]byte{2, 0, 0, 0})
+	sh.Absorb(k)
+	sh.Absorb(cookie)
+	sh.Squeeze(16)
+	sh.Rekey(PQName)
+	sh.Absorb(b[:4])
+	sh.Absorb(b[4:36])
+	sh.Absorb(kc)
+	sh.Absorb(cookie)
+	sni = sh.Decrypt(b[900:1156])
+	sh.Squeeze(16)
+	return
+}
+
 func CaseCAck(srv *Srv, addr *net.UDPAddr, b []byte, m Meta) bool {
 	sh := &Shadow{Fps: [][]byte{nil}} // no state before InitializeEmpty
 	e := NewEnv(b, 0, sh)
-	var k []byte
-	func() {
-		if len(b) < 1172 {
-			return
-		}
-		kb := b[36:836]
-		kemParse(e, kb)
-		kc := e.kemCanon(kb)
-		if kc == nil {
-			return
-		}
-		cookie := b[836:900]
-		_, ad := CookieADSpec(kc, addr)
-		e.HashParts(ad, kc, addr.IP, []byte{byte(addr.Port >> 8), byte(addr.Port)})
-		var ok bool
-		k, ok = openCookieSpec(srv.S.VerifHsCookieKey(), ad, cookie)
-		e.Open(IDCookie, ad, cookie, k, ok)
-		if !ok {
-			return
-		}
-		sh.Reset()
-		sh.Absorb([]byte(PQName))
-		sh.Absorb([]byte{1, 1, 0, 0})
-		sh.Absorb(kc)
-		sh.Squeeze(16)
-		sh.Absorb([]byte{2, 0, 0, 0})
-		sh.Absorb(k)
-		sh.Absorb(cookie)
-		sh.Squeeze(16)
-		sh.Rekey(PQName)
-		sh.Absorb(b[:4])
-		sh.Absorb(b[4:36])
-		sh.Absorb(kc)
-		sh.Absorb(cookie)
-		sh.Decrypt(b[900:1156])
-		sh.Squeeze(16)
-	}()
+	shadowCAck(e, sh, srv.S.VerifHsCookieKey(), addr, b)
 	var hs *transport.VerifHsState
 	n, err, pan := catch2(func() (int, error) {
 		n, h, err := srv.S.VerifHsReadPQClientAck(b, addr)
@@ -422,6 +437,60 @@ func CaseCAck(srv *Srv, addr *net.UDPAddr, b []byte, m Meta) bool {
 
 // ---------------------------------------------------------------- hidden request (server reads, per-certificate trials)
 
+// shadowHReq: per-certificate trials, policy, timestamp, MAC. Returns the index of the matching
+// certificate (-1: none) and the client's certified key when the policy admitted it.
+func shadowHReq(e *Env, sh *Shadow, hs *transport.VerifHsState, list []HCert, listErr bool, b []byte) (matched int, pk []byte) {
+	matched = -1
+	if len(b) < 4 {
+		return
+	}
+	L := int(b[2])<<8 | int(b[3])
+	if len(b) < 4+768+L+16+800+8+16 || listErr {
+		return
+	}
+	var leaf, inter []byte
+	for i, c := range list {
+		sh.Reset()
+		sh.Absorb([]byte(PQHiddenName))
+		sh.Rekey(PQHiddenName)
+		sh.Absorb(b[:4])
+		sh.Absorb(b[4:804])
+		if c.KEM == nil {
+			continue
+		}
+		k, err := c.KEM.Decapsulate(b[804:1572])
+		e.Decaps(IDSrvKEM+i, b[804:1572], k, err == nil)
+		if err != nil {
+			continue
+		}
+		sh.Absorb(k)
+		pt := sh.Decrypt(b[1572 : 1572+L])
+		var ok bool
+		leaf, inter, ok = splitVectors(pt)
+		if !ok {
+			continue // malformed certificate vectors: next certificate
+		}
+		tag := sh.Squeeze(16)
+		if string(tag) != string(b[1572+L:1588+L]) || !c.HasName {
+			continue
+		}
+		matched = i
+		break
+	}
+	if matched < 0 {
+		return
+	}
+	kemParse(e, b[4:804])
+	p, err := hs.VerifHsPolicy(leaf, inter)
+	e.Policy(IDPolSrv, leaf, inter, p[:], err == nil)
+	if err != nil {
+		return
+	}
+	sh.Decrypt(b[1588+L : 1596+L])
+	sh.Squeeze(16)
+	return matched, p[:]
+}
+
 // CaseHReq runs readPQClientRequestHidden on b. certsKEM lists, per configured certificate in
 // GetCertList order, its KEM key pair (nil: none) and whether it has a host name.
 type HCert struct {
@@ -435,56 +504,7 @@ func CaseHReq(srv *Srv, list []HCert, listErr bool, b []byte, m Meta) bool {
 	sh := &Shadow{Fps: [][]byte{nil}} // the duplex of a fresh HandshakeState is not initialised
 	e := NewEnv(b, K0, sh)
 	var now0, now1 int64
-	matched := -1
-	func() {
-		if len(b) < 4 {
-			return
-		}
-		L := int(b[2])<<8 | int(b[3])
-		if len(b) < 4+768+L+16+800+8+16 || listErr {
-			return
-		}
-		var leaf, inter []byte
-		for i, c := range list {
-			sh.Reset()
-			sh.Absorb([]byte(PQHiddenName))
-			sh.Rekey(PQHiddenName)
-			sh.Absorb(b[:4])
-			sh.Absorb(b[4:804])
-			if c.KEM == nil {
-				continue
-			}
-			k, err := c.KEM.Decapsulate(b[804:1572])
-			e.Decaps(IDSrvKEM+i, b[804:1572], k, err == nil)
-			if err != nil {
-				continue
-			}
-			sh.Absorb(k)
-			pt := sh.Decrypt(b[1572 : 1572+L])
-			var ok bool
-			leaf, inter, ok = splitVectors(pt)
-			if !ok {
-				continue // malformed certificate vectors: next certificate
-			}
-			tag := sh.Squeeze(16)
-			if string(tag) != string(b[1572+L:1588+L]) || !c.HasName {
-				continue
-			}
-			matched = i
-			break
-		}
-		if matched < 0 {
-			return
-		}
-		kemParse(e, b[4:804])
-		pk, err := hs.VerifHsPolicy(leaf, inter)
-		e.Policy(IDPolSrv, leaf, inter, pk[:], err == nil)
-		if err != nil {
-			return
-		}
-		sh.Decrypt(b[1588+L : 1596+L])
-		sh.Squeeze(16)
-	}()
+	matched, _ := shadowHReq(e, sh, hs, list, listErr, b)
 	now0 = time.Now().Unix()
 	// the reader overwrites the beginning of its input (copy(b, rest)): hand it a copy
 	bb := append(make([]byte, 0, len(b)), b...)
